@@ -11,6 +11,7 @@ package main
 import (
 	"bytes"
 	"fmt"
+	"io"
 	"os"
 	"path/filepath"
 	"sort"
@@ -383,6 +384,20 @@ func runReaderInit(fn string, text []byte, init []string, pre []byte, extra ...s
 // have been taken (preK < 0: pre is drained) — possibly between the records of one multi-record
 // line, or before any Scan. After the Reset the reader must behave like a fresh one: Result()
 // is the "Scan has not been called" placeholder and the first Scan reads the NEW input.
+// preFail: the io.Reader of the first input fails (after delivering all of `pre`) instead of
+// reporting EOF, so the first input ends with a non-nil Err(); set by runReaderAfterIOError.
+var preFail bool
+
+type failingReader struct{}
+
+func (failingReader) Read([]byte) (int, error) { return 0, fmt.Errorf("verif: disk on fire") }
+
+func runReaderAfterIOError(fn string, text []byte, init []string, pre []byte, extra ...string) {
+	preFail = true
+	defer func() { preFail = false }()
+	runReaderReuse(fn, text, init, pre, -1, append(extra, "afterioerror")...)
+}
+
 func runReaderReuse(fn string, text []byte, init []string, pre []byte, preK int, extra ...string) {
 	id := nextID
 	nextID++
@@ -407,15 +422,27 @@ func runReaderReuse(fn string, text []byte, init []string, pre []byte, preK int,
 	if pre != nil && preK >= 0 {
 		tags["midreset"] = true
 	}
-	caseLine := fmt.Sprintf("case %d kind=r fn=%s text=%s init=%s haspre=%d prek=%d pre=%s %s tag=%s", id, hx.HexS(fn), hx.Hex(text),
-		hx.HexListS(init), hasPre, preK, hx.Hex(pre), t, tagStr(tags))
+	pf := 0
+	if preFail {
+		pf = 1
+	}
+	failing := preFail
+	caseLine := fmt.Sprintf("case %d kind=r fn=%s text=%s init=%s haspre=%d prek=%d prefail=%d pre=%s %s tag=%s", id, hx.HexS(fn), hx.Hex(text),
+		hx.HexListS(init), hasPre, preK, pf, hx.Hex(pre), t, tagStr(tags))
 	guarded(id, caseLine, func(out *strings.Builder) {
 		var r *benchfmt.Reader
 		pre0 := "noresult"
 		switch {
 		case pre != nil:
-			r = benchfmt.NewReader(bytes.NewReader(pre), "pre")
+			var src io.Reader = bytes.NewReader(pre)
+			if failing {
+				src = io.MultiReader(src, failingReader{})
+			}
+			r = benchfmt.NewReader(src, "pre")
 			for k := 0; (preK < 0 || k < preK) && r.Scan(); k++ {
+			}
+			if failing && r.Err() == nil {
+				panic("harness: the failing reader did not surface as Err()")
 			}
 			r.Reset(bytes.NewReader(text), fn, init...)
 			// before the first Scan on the new input there is no record
@@ -661,5 +688,9 @@ func replay(l string) {
 	}
 	preK := -1
 	fmt.Sscan(get("prek"), &preK)
+	if get("prefail") == "1" {
+		preFail = true
+		defer func() { preFail = false }()
+	}
 	runReaderReuse(string(hx.UnHex(get("fn"))), hx.UnHex(get("text")), init, pre, preK)
 }
